@@ -75,6 +75,16 @@ type c20Shared struct {
 	base *c20Shared
 }
 
+// c20ForeignKey: a principal of the same algorithm as p, but another one.
+func c20ForeignKey(p *gen.Principal) *gen.Principal {
+	for _, q := range gen.ByAlg(p.Alg) {
+		if q != p && q.DID != p.DID {
+			return q
+		}
+	}
+	return gen.Ed(0)
+}
+
 type kvSnap struct {
 	K string
 	V string
@@ -381,6 +391,22 @@ func c20Ops() []c20Op {
 			i := len(s.dlgs) - 1
 			b, _, err := s.dlgs[i].ToSealed(s.dlgPrivs[i].Priv)
 			return decodedFields(b, err)
+		}},
+		// sealing with a key that is not the issuer's fails - always, also on a token that was just
+		// sealed with the right key (by this goroutine or another one)
+		{"Delegation.ToSealed(foreign key)", func(s *c20Shared) string {
+			i := len(s.dlgs) - 1
+			_, _, err := s.dlgs[i].ToSealed(c20ForeignKey(s.dlgPrivs[i]).Priv)
+			return fmt.Sprint("refused=", err != nil)
+		}},
+		{"ToSealed(foreign key)", func(s *c20Shared) string {
+			_, _, err := s.inv.ToSealed(c20ForeignKey(s.priv).Priv)
+			return fmt.Sprint("refused=", err != nil)
+		}},
+		{"ToDagJson(foreign key)", func(s *c20Shared) string {
+			_, err := s.inv.ToDagJson(c20ForeignKey(s.priv).Priv)
+			_, err2 := s.dlgs[0].ToDagJson(c20ForeignKey(s.dlgPrivs[0]).Priv)
+			return fmt.Sprint("refused=", err != nil, err2 != nil)
 		}},
 		{"Delegation.ToDagJson", func(s *c20Shared) string {
 			b, err := s.dlgs[0].ToDagJson(s.dlgPrivs[0].Priv)
